@@ -67,7 +67,8 @@ def run(check, tier):
                           "bit-level determinism of NumPy/torch generators (same seed => same stream) is NumPy's contract, not checked"]
     check.outside += ["n > 9 for the batcher (engine X realises n at np.arange)", "gradient equality through autograd (follows from the "
                       "decided loss identity by linearity of differentiation)",
-                      "bit-identical loss histories across runs"]
+                      "bit-identical loss histories across runs beyond the schedule: identical batches in identical order from identical "
+                      "initial state give identical losses only if the numerical kernels are deterministic (stated, not checked)"]
     rnd = random.Random(seed())
     t = 300 if quick else 1800
     jobs = [dict(fn="partition__reach", timeout=60),
@@ -80,6 +81,25 @@ def run(check, tier):
                 jobs.append(dict(fn="partition", fixed=dict(n=n, mode=mode, shuffle=shuffle, p_in=sorted(set(ps))),
                                  timeout=t, key=f"partition:n={n}"))
     run_jobs(check, FILE, jobs)
+    # determinism clause at the level of the schedule: the real reconstruct / reset_recon / RNGMixin / SimpleBatcher control flow
+    # with the numerical work of a step cut out; the generator is a deterministic function of (seed, draws so far)
+    check.add_functions("Ptychography.reconstruct (control flow)", "Ptychography.reset_recon", "PtychographyBase.reset_recon",
+                        "RNGMixin.rng setter / _reset_rng", "PtychographyBase.batch_size / val_ratio / val_mode / constraints setters",
+                        "Ptychography._record_iter")
+    check.bounds.update(schedule="n in 2..5 patterns, seeds 0..2, val_ratio in {0, 0.25, 0.4}, grid / random split, 0..2 earlier iterations "
+                                 "with batch size 1..3, then reconstruct(reset=True) for 1..2 iterations with batch size 1..4")
+    check.stubs += ["np.random.default_rng(seed) -> generator whose k-th permutation is a fixed function of (seed, k) (rotation by seed+k): "
+                    "the determinism contract of NumPy's seeded generators", "torch.Generator -> inert stand-in",
+                    "the numerical work of a reconstruction step (models' forward, forward_operator, backward, optimizers, schedulers, "
+                    "propagators) -> no-ops; error_estimate -> a loss that fingerprints (step number, batch contents and order)",
+                    "tqdm / gc -> inert (progress display and garbage collection are not part of the property)"]
+    sjobs = [dict(fn="same_after_reset__reach", timeout=60)]
+    for n in ((3, 4, 5) if quick else (2, 3, 4, 5)):
+        for first_iters in (0, 1, 2):
+            for mode in (False, True):
+                sjobs.append(dict(fn="same_after_reset", fixed=dict(n=n, first_iters=first_iters, mode=mode), timeout=t,
+                                  key="same_history_after_reset"))
+    run_jobs(check, "harness/c09_schedule.py", sjobs)
     # engine S: the loss is a sum of per-pattern terms scaled by num_patterns / batch_size, so the mean of the batch losses
     # is the full-batch loss for every divisor (gradients follow by linearity of differentiation - stated, not queried)
     check.add_functions("PtychographyBase.error_estimate")
